@@ -153,6 +153,7 @@ def session(run, rng, label, steps, forged, bursts=False):
         net.healed = True
         for i in range(int((3 * T + 4 * cfg["delay"]) // cfg["tick"]) + 30):
             net.step()
+        drain(net)
         diffs = net.check_models()
         stats = judge(net, label, cfg, mtu, viol)
     finally:
@@ -161,6 +162,21 @@ def session(run, rng, label, steps, forged, bursts=False):
         run.oracle_violation(what, case, "callbacks")
     lost_cb = cfg["loss"] > 0
     return net, diffs, cfg, stats, n_forged, lost_cb
+
+
+def drain(net, limit=1500):
+    """after the healed phase: keep stepping (bounded) until neither side has a backlog — queued messages, messages
+    scheduled for re-send (keep-alive datagrams are always pending on an idle link, so pending_acks is not a criterion).  Burst sessions at a small MTU queue faster than one datagram per
+    tick drains; judging 'fired exactly once' before the queue is empty would blame the code for the harness's hurry.
+    A backlog that survives the bound is left for the oracle to report."""
+    n = 0
+    while n < limit and any(net.ep(w).impl.conn.outgoing_messages or net.ep(w).impl.conn.pending_retry_msg
+                            for w in ("client", "server")):
+        net.step()
+        n += 1
+    for _ in range(int((T + 2 * net.cfg.get("delay", 0)) // net.cfg.get("tick", 300)) + 5):
+        net.step()
+    return n
 
 
 def stale_ack_after_wrap(run):
@@ -363,6 +379,7 @@ def nested_api_sessions(run, rng, n, steps):
             net.healed = True
             for k in range(int((4 * T + 6 * cfg["delay"]) // cfg["tick"]) + 30):
                 net.step()
+            drain(net)
             stats = judge(net, label, cfg, 1500, viol)
         finally:
             net.close()
